@@ -269,6 +269,7 @@ def _style_args(w, b, **params):
     ip = kf.Interp(w, max_depth=12, max_paths=3000, max_steps=150000,
                    converter_pred=(lambda tb: kf.default_converter_pred(tb) and not tb.short.endswith(tuple(enter))) if enter else None)
     ip.no_inline = no_inline
+    ip.dedupe_loops = False       # paths that differ only in values computed before a loop must all reach print_doc
     ip.accessor_model = params.pop('accessor_model', None)
     orig_call = ip.call
 
@@ -478,6 +479,7 @@ def _style_with_comment(w, b, i, am):
     sid, fields = _liststyle_fields(w)
     captured = []
     ip = kf.Interp(w, max_depth=12, max_paths=3000, max_steps=150000)
+    ip.dedupe_loops = False
     ip.accessor_model = am
     ip.no_inline = lambda tb: tb.short.endswith('::print_doc') or 'get_fold_style' in tb.short or tb.short.startswith('attr::')
     orig_call = ip.call
